@@ -32,6 +32,10 @@ def key_path(ctx, k: Optional[Term]) -> Optional[Tuple[str, ...]]:
             m = ctx.p.lookup_method(cls, k[2], None)
             if m is not None:
                 return key_path(ctx, ("fn", m.qualname))
+    if k[0] == "attr" and k[1][0] == "v":              # self.__selector / obj.selector: a method referenced through an instance
+        owners = [c for c in ctx.p.classes.values() if not c.module.is_test and k[2] in c.methods]
+        if len(owners) == 1:
+            return key_path(ctx, ("fn", owners[0].methods[k[2]].qualname))
     if k[0] == "call" and k[1] in ("operator.attrgetter",) and len(k[2]) == 1 and k[2][0][0] == "c":
         return tuple(str(k[2][0][1]).split("."))
     return None
